@@ -38,7 +38,7 @@ func (w *World) oracleOnBind(p *PodInfo, m *simkube.Mutation) {
 		for _, ip := range p.IPs {
 			for _, q := range w.livePodsWithIP(ip) {
 				if q.UID != p.UID {
-					w.fail("C01.double-bound", "double-bound",
+					w.fail("C01.double-bound", w.c04Key("double-bound", q.Key, 0),
 						"IP %s handed to pod %s (uid %s) while live pod %s (uid %s, bound at step %d) holds it", ip, p.key(), p.UID, q.key(), q.UID, q.BoundStep)
 					return
 				}
@@ -281,7 +281,7 @@ func (w *World) oracleC03(m *simkube.Mutation, ip string, oldF, newF *FipInfo, p
 	}
 	if newF == nil {
 		if ok, why := w.releaseJustified(prev, m.By); !ok {
-			w.fail("C03.premature-release", "premature-release:"+policyTag(w, prev.Key),
+			w.fail("C03.premature-release", w.c04Key("premature-release:"+policyTag(w, prev.Key), prev.Key, 0),
 				"FloatingIP %s (key %q, allocated at step %d) released by %s: %s", ip, prev.Key, prev.Step, m.By.Name, why)
 		}
 		return
@@ -584,7 +584,7 @@ func (w *World) survivorCheck() {
 				if f != nil {
 					owner = f.Key
 				}
-				w.fail("C05.bound-pod-lost-ip", "bound-pod-lost-ip", "after recovery the live bound pod %s (uid %s) no longer owns its IP %s: store owner %s", p.key(), p.UID, ip, owner)
+				w.fail("C05.bound-pod-lost-ip", w.c04Key("bound-pod-lost-ip", p.Key, 0), "after recovery the live bound pod %s (uid %s) no longer owns its IP %s: store owner %s", p.key(), p.UID, ip, owner)
 				return
 			}
 		}
